@@ -30,7 +30,7 @@ def jobs(tier, seed):
     J = []
     shapes = [s for s in SH.CORPUS if s["type"] in CC.PRED and not str(s.get("mesh", "")).endswith(("_mixed", "_raw"))]
     if tier != "quick":
-        shapes += [s for s in SH.CORPUS_MORE if s["type"] in CC.PRED]
+        shapes += [s for s in SH.CORPUS_MORE if s["type"] in CC.PRED and not str(s.get("mesh", "")).endswith(("_mixed", "_raw"))]
     for sh in shapes:
         fam = sh["type"]
         big = SH.Shape(sh).size_scale() > 8
